@@ -8,7 +8,10 @@ FAMILIES = {
 PROPS = {
     "C07": dict(
         family="search",
-        theorems=[],
+        theorems=T("C07", "find_eq_spec", "find_eq_findRef", "find_last_eq_spec", "find_last_eq_findLastRef", "find_all_eq_spec",
+                   "find_last_all_eq_spec", "find_last_limit_beyond_end", "contains_iff", "starts_with_iff", "ends_with_iff",
+                   "affix_empty_trivial", "ci_eq_cs_on_fold", "fold_only_ascii_upper", "needle_forms_agree",
+                   "needle_forms_agree_instances", "affix_forms_agree"),
         rule="exhaustive: every haystack over {a, A, b, NUL, E9} up to length 5 (quick) / 6 (thorough) x every needle up to length 2 (thorough also "
              "length 3 on haystacks up to 4) x every start/limit in 0..len+2, SIZE_MAX and the position-less overload x 2 case modes x every needle "
              "overload (char, const char*, const char8_t*, (ptr,len), (char8_t ptr,len), ST::string, null pointers) through find, find_last, contains, "
